@@ -2,6 +2,7 @@ package main
 
 import (
 	"fmt"
+	"go/token"
 	"go/types"
 	"strings"
 
@@ -249,6 +250,43 @@ func runC03(c *Ctx) {
 	runC03TablesReadOnly(c)
 	runC03AceLow(c)
 	runC03ScoreCases(c)
+	runC03TablesByValue(c)
+}
+
+// runC03TablesByValue: which ranking table a hand is scored with is decided by what the table
+// holds, never by where it is stored. A table that went through JSON (every step of the table
+// backend) or was copied by the caller is equal value for value and lives in another array; a
+// test on the address of an element takes it for a different table.
+func runC03TablesByValue(c *Ctx) {
+	p := c.P
+	const rule = "tables-by-value"
+	var bad []string
+	nFn, nCmp := 0, 0
+	for _, fn := range p.Funcs {
+		if fn.Pkg == nil || shortPkg(fn.Pkg.Pkg.Path()) != "combination" || fn.Blocks == nil {
+			continue
+		}
+		nFn++
+		for _, b := range fn.Blocks {
+			for _, in := range b.Instrs {
+				bo, ok := in.(*ssa.BinOp)
+				if !ok || (bo.Op != token.EQL && bo.Op != token.NEQ) {
+					continue
+				}
+				if _, isPtr := bo.X.Type().Underlying().(*types.Pointer); !isPtr {
+					continue
+				}
+				nCmp++
+				_, xa := bo.X.(*ssa.IndexAddr)
+				_, ya := bo.Y.(*ssa.IndexAddr)
+				if xa || ya {
+					bad = append(bad, fmt.Sprintf("%s compares the address of a slice element at %s: a table is recognised by its storage, an equal copy is not", fnKey(fn), p.InstrPos(in)))
+				}
+			}
+		}
+	}
+	c.Sites += nCmp
+	c.check(len(bad) == 0 && nFn > 0, rule, "combination", "-", fmt.Sprintf("no function of the evaluator (%d inspected) compares addresses of table elements", nFn), "the ranking depends on which array a table lives in", uniq(bad, 3)...)
 }
 
 // runC03ScoreCases: inside a category the score is positional over ALL rank groups, which is what
